@@ -420,6 +420,20 @@ func simpleArg(e ast.Expr) bool {
 
 func (r *rw) apply(f *ast.File) {
 	r.collectFuncs(f)
+	// type facts needed by pass 2, taken before the race rewrite replaces operands by synthesised
+	// (untyped) calls: ranges over maps / channels, len() and close() of channels
+	mapRange, chanRange, chanCall := map[*ast.RangeStmt]bool{}, map[*ast.RangeStmt]bool{}, map[*ast.CallExpr]bool{}
+	ast.Inspect(f, func(n ast.Node) bool {
+		switch st := n.(type) {
+		case *ast.RangeStmt:
+			mapRange[st], chanRange[st] = r.isMap(st.X), r.isChan(st.X)
+		case *ast.CallExpr:
+			if id, ok := st.Fun.(*ast.Ident); ok && len(st.Args) == 1 && (id.Name == "len" || id.Name == "close") && r.isChan(st.Args[0]) {
+				chanCall[st] = true
+			}
+		}
+		return true
+	})
 	if raceMode {
 		r.raceRewrite(f)
 	}
@@ -469,7 +483,7 @@ func (r *rw) apply(f *ast.File) {
 				c.Replace(call("vsched", "Recv", lit(r.pos(n)), n.X))
 			}
 		case *ast.CallExpr:
-			if id, ok := n.Fun.(*ast.Ident); ok && len(n.Args) == 1 && r.isChan(n.Args[0]) {
+			if id, ok := n.Fun.(*ast.Ident); ok && len(n.Args) == 1 && chanCall[n] {
 				switch id.Name {
 				case "len":
 					r.used = true
@@ -486,10 +500,10 @@ func (r *rw) apply(f *ast.File) {
 				}
 			}
 		case *ast.RangeStmt:
-			if r.isChan(n.X) {
+			if chanRange[n] {
 				fatal("range over channel at %s is not supported", r.pos(n))
 			}
-			if r.isMap(n.X) {
+			if mapRange[n] {
 				r.used = true
 				var pre []ast.Stmt
 				if k, ok := n.Key.(*ast.Ident); ok && k.Name != "_" {
